@@ -528,8 +528,8 @@ def _branch_name(g, n) -> str:
 def _owner(pl, c) -> str:
     pm = parent_map(pl.node)
     x = c
-    while x in pm:
-        x = pm[x]
+    while id(x) in pm:
+        x = pm[id(x)]
         if isinstance(x, ast.Call) and isinstance(x.func, ast.Attribute) and isinstance(x.func.value, ast.Name) and x.func.value.id == "p":
             return x.func.attr
         if isinstance(x, (ast.Assign,)):
